@@ -11,7 +11,7 @@ THEOREMS = ["Sb.C13.firstTouch_none", "Sb.C13.firstTouch_some", "Sb.C13.first_cr
 RULE = ("trajectory files with 1..7 segments whose altitude encodings are constant, linear or well-conditioned cubic (5% rule), arbitrary "
         "x/y encodings incl. degree 7, scales {1, 10, 127}; climbs, hovers, descents before the climb, plateaus; takeoff ascents h chosen "
         "from: 0, the altitude gain at every segment boundary exactly (crossing exactly at a boundary / plateau exactly at the target), "
-        "fractions inside every segment's gain, a hair above an initial hover (1..3 float steps, up to 1e-3 mm), the maximum gain exactly and just beyond (never reached), h = 0 on a first cubic segment that returns exactly to the initial altitude; speeds {500.5, 1000, 2000}, "
+        "fractions inside every segment's gain, ease-out cubic climbs (almost flat arrival, target reached long before it), a hair above an initial hover (1..3 float steps, up to 1e-3 mm), the maximum gain exactly and just beyond (never reached), h = 0 on a first cubic segment that returns exactly to the initial altitude; speeds {500.5, 1000, 2000}, "
         "accelerations {1, 1000, 4000, +inf}; invalid parameters {negative, zero, +-inf, NaN} in each position. The proposal function "
         "and the one-pass statistics interface are both called, through both loading routes. Non-trivial: at least one segment.")
 ASSUMPTIONS = ["'E' is judged through the altitude it yields and through 'not robustly reached earlier', decided exactly (certified root oracle) on the exact Bezier "
@@ -143,6 +143,25 @@ def generate(rng, tier):
         if top > z0:
             for frac in (0.001, 0.5):
                 qs.append(f"K{fb(b2f(f2b((top - z0) * scale * frac)))},{fb(1000.0)},{fb(1000.0)}")
+        out.append((f"stats {hx(skyb(blk, rng))} " + " ".join(qs), True))
+    # ease-out climbs: the segment decelerates into an almost flat arrival at the top (control points z0, ~top, ~top, top) and the
+    # takeoff altitude is reached long before the flat part - one real solution, with the two cube roots of the closed formula of
+    # opposite sign and similar size
+    for _ in range(240 if tier == "thorough" else 50):
+        scale = rng.choice([1, 10])
+        z0 = rng.choice([0, 0, 300, -200])
+        climb = rng.choice([1000, 2500, 3000, 3000])
+        top = z0 + climb
+        e1 = int(climb * rng.choice([0.02, 0.05, 0.07, 0.1, 0.12, 0.15]))
+        e2 = int(climb * rng.choice([0.0, 0.005, 0.01, 0.02]))
+        p = [top - e1, top - e2, top]
+        if not well_conditioned_cubic(z0, p):
+            continue
+        pre = [(2000, [], [], [], [])] if rng.random() < 0.3 else []
+        blk = build(scale, (0, 0, z0, 0), pre + [(rng.choice([3000, 6000, 10000]), [], [], p, []), (2000, [], [], [top], [])])
+        qs = []
+        for frac in (0.05, 0.1, 0.17, 0.3, 0.5, 0.7, 0.9):
+            qs.append(f"K{fb(b2f(f2b(climb * scale * frac)))},{fb(1000.0)},{fb(rng.choice([1000.0, math.inf]))}")
         out.append((f"stats {hx(skyb(blk, rng))} " + " ".join(qs), True))
     # level flight stored as a *linear* altitude segment whose end equals its start (two stored coefficients, one of them
     # zero): at the start of the show with h = 0 (E = 0), and as a plateau exactly at the takeoff altitude after a climb
